@@ -581,4 +581,54 @@ theorem runI_inv (c : Cfg) (ops : List IOp) (s : St) (m : Mon2) (hi : Inv2 s m) 
     rw [Mon2.run_append, h1]
     simpa using h3
 
+/-! ## The name parser reads back what the encoder wrote -/
+
+theorem encodeName_length_pos (ls : List (List Nat)) : ls.length + 1 ≤ (encodeName ls).length := by
+  induction ls with
+  | nil => simp [encodeName]
+  | cons l r ih => simp only [encodeName, List.length_cons, List.length_append]; omega
+
+/-- **parseName_encodeName.** The name parser reads back the labels the encoder wrote: for labels of
+1–63 octets whose encoding fits the budget, it returns their escaped presentation form and exactly
+the rest of the input. -/
+theorem parseName_encodeName (ls : List (List Nat)) (rest : List Nat) (fuel : Nat) (budget : Int)
+    (hl : ∀ l ∈ ls, 1 ≤ l.length ∧ l.length ≤ 63) (hf : ls.length < fuel)
+    (hb : ((encodeName ls).length : Int) ≤ budget) :
+    parseName fuel budget (encodeName ls ++ rest) =
+      some (ls.flatMap (fun l => escLabel l ++ [46]), rest) := by
+  induction ls generalizing fuel budget with
+  | nil =>
+    cases fuel with
+    | zero => simp at hf
+    | succ f => simp [encodeName, parseName]
+  | cons l r ih =>
+    cases fuel with
+    | zero => simp at hf
+    | succ f =>
+      have hl1 := hl l (by simp)
+      have hr : ∀ x ∈ r, 1 ≤ x.length ∧ x.length ≤ 63 := fun x hx => hl x (by simp [hx])
+      have hpos := encodeName_length_pos r
+      simp only [encodeName, List.length_cons, List.length_append] at hb
+      have h0 : l.length ≠ 0 := by omega
+      have h64 : ¬ 64 ≤ l.length := by omega
+      have hlen : ¬ (l ++ (encodeName r ++ rest)).length < l.length := by
+        simp only [List.length_append]; omega
+      have hbud : ¬ budget - ((l.length + 1 : Nat) : Int) ≤ 0 := by
+        push_cast; omega
+      have hdrop : (l ++ (encodeName r ++ rest)).drop l.length = encodeName r ++ rest := List.drop_left
+      have htake : (l ++ (encodeName r ++ rest)).take l.length = l := List.take_left
+      have ih' := ih f (budget - ((l.length + 1 : Nat) : Int)) hr
+        (by simp only [List.length_cons] at hf; omega) (by push_cast; omega)
+      simp only [encodeName, List.cons_append, parseName, h0, h64, hbud, if_false, List.flatMap_cons,
+        List.append_assoc]
+      rw [if_neg hlen, hdrop, htake, ih']
+
+theorem presName_eq (ls : List (List Nat)) :
+    (if ls.flatMap (fun l => escLabel l ++ [46]) = [] then [46]
+      else ls.flatMap (fun l => escLabel l ++ [46])) = presName ls := by
+  unfold presName
+  cases ls with
+  | nil => simp
+  | cons l r => simp
+
 end Agd.Forward
